@@ -5,11 +5,12 @@ mod common;
 mod rng;
 mod c11;
 mod c06;
+mod c03;
 
 use std::io::{BufWriter, Write};
 
 fn main() {
-    common::silence_panics();
+    c03::install_hook();
     let args: Vec<String> = std::env::args().collect();
     if args.len() < 2 {
         eprintln!("usage: harness gen <Cxx> <tier> <seed> | replay <file>");
@@ -25,10 +26,18 @@ fn main() {
             match prop {
                 "C11" => c11::gen(tier, seed, &mut out),
                 "C06" => c06::gen(tier, seed, &mut out),
+                "C03" => c03::gen(tier, seed, &mut out),
                 _ => {
                     eprintln!("unknown property {}", prop);
                     std::process::exit(2);
                 }
+            }
+        }
+        "single" => {
+            // one potentially process-killing case, run in a child process
+            if args[2] == "C03" {
+                let r = c03::single(&args[3], args[4].parse().unwrap());
+                writeln!(out, "{}", r).unwrap();
             }
         }
         "replay" => {
@@ -63,6 +72,13 @@ fn replay_one(toks: &[&str]) -> String {
             let scratch = common::scratch_root().join("c06r");
             std::fs::create_dir_all(&scratch).unwrap();
             let r = c06::observe(&toks[1..], &scratch);
+            common::rm_rf(&scratch);
+            r
+        }
+        "C03" => {
+            let scratch = common::scratch_root().join("c03r");
+            std::fs::create_dir_all(&scratch).unwrap();
+            let r = c03::observe(&toks[1..], &scratch);
             common::rm_rf(&scratch);
             r
         }
